@@ -364,11 +364,12 @@ func cacheSequential(r *simrt.Run, tier string) {
 	if i < 0 {
 		return
 	}
-	relaxed := &cacheModel{limit: limit, relaxed: true}
-	if j, _ := relaxed.checkSequential(ops); j < 0 {
-		r.Fail("cache-fresh-set-deleted-by-expiry-of-previous-entry", "single client, limit=%d expire=%v: %s%s", limit, expire,
-			"a value set over an entry whose timer was due disappeared although it was neither deleted, evicted nor old enough to expire: ", describeFailure(limit, ops, i, before))
-		return
+	for lvl := 1; lvl <= 2; lvl++ {
+		relaxed := &cacheModel{limit: limit, relaxed: lvl}
+		if j, _ := relaxed.checkSequential(ops); j < 0 {
+			r.Fail(relaxedClass[lvl], "single client, limit=%d expire=%v: %s: %s", limit, expire, relaxedWhat[lvl], describeFailure(limit, ops, i, before))
+			return
+		}
 	}
 	cls, desc := classifySequential(limit, ops, i, before)
 	r.Fail(cls, "single client, limit=%d expire=%v: %s\nhistory:%s", limit, expire, desc, describeOps(ops[:i+1]))
@@ -474,18 +475,28 @@ func cacheConcurrent(r *simrt.Run, tier string) {
 		return
 	}
 	r.Probe("oracle")
-	switch checkCacheHistory(limit, false, ops) {
+	switch checkCacheHistory(limit, 0, ops) {
 	case linUnknown:
 		r.Probe("porcupine-unknown")
 	case linIllegal:
-		switch checkCacheHistory(limit, true, ops) {
-		case linOK:
-			r.Fail("cache-fresh-set-deleted-by-expiry-of-previous-entry", "%d clients, limit=%d expire=%v: the history is only explained if a value set over an entry whose timer was due was deleted by that timer:%s",
-				clients, limit, expire, describeOps(ops))
-		case linUnknown:
-			r.Probe("porcupine-unknown")
-		default:
-			r.Fail("cache-nonlinearizable", "%d clients, limit=%d expire=%v: no linearization of the history is a behaviour of an LRU cache with expiry:%s", clients, limit, expire, describeOps(ops))
+		for lvl := 1; lvl <= 3; lvl++ {
+			switch checkCacheHistory(limit, lvl, ops) {
+			case linOK:
+				r.Fail(relaxedClass[lvl], "%d clients, limit=%d expire=%v: the history is only explained if %s:%s", clients, limit, expire, relaxedWhat[lvl], describeOps(ops))
+				return
+			case linUnknown:
+				r.Probe("porcupine-unknown")
+				return
+			}
 		}
+		r.Fail("cache-nonlinearizable", "%d clients, limit=%d expire=%v: no linearization of the history is a behaviour of an LRU cache with expiry:%s", clients, limit, expire, describeOps(ops))
 	}
 }
+
+// classes of the known-finding family "the expiry task deletes by key" (cachemodel_test.go, cacheModel.relaxed)
+var relaxedClass = [...]string{"", "cache-fresh-set-deleted-by-expiry-of-previous-entry", "cache-fresh-set-deleted-by-expiry-of-deleted-or-evicted-entry",
+	"cache-fresh-set-deleted-by-orphan-timer-of-set-racing-del"}
+
+var relaxedWhat = [...]string{"", "a value set over an entry whose timer was due disappeared although it was neither deleted, evicted nor old enough to expire",
+	"a value set after the key's previous entry was deleted (Del) or evicted while that entry's timer was due disappeared although it was neither deleted, evicted nor old enough to expire",
+	"a Del overlapping a Set of the same key left that Set's timer behind and the timer later deleted a newer value that was neither deleted, evicted nor old enough to expire"}
